@@ -872,7 +872,7 @@ class TraceUpdate(Contract):
 class TrGetScore(Contract):
     """G7 for Tr: scalar score as is; a vectorised trace reports the sum of its lane scores"""
 
-    cases = ["scalar", "vectorised"]
+    cases = ["scalar", "vectorised", "doubly_vectorised(nested_combinators)"]
 
     def call(self, case):
         from vt.tensor import Tensor
@@ -881,8 +881,9 @@ class TrGetScore(Contract):
             self.s = real("s")
         else:
             self.n = fresh("n", z3.IntSort())
-            engine().assume(self.n >= 1)
-            self.s = Tensor.fresh("s", (self.n,))
+            self.m = fresh("m", z3.IntSort())
+            engine().assume(z3.And(self.n >= 1, self.m >= 1))
+            self.s = Tensor.fresh("s", (self.n,) if case == "vectorised" else (self.n, self.m))
         tr = core.Tr(None, None, None, None, self.s)
         return self.real(self.fn, tr)
 
@@ -893,8 +894,11 @@ class TrGetScore(Contract):
         if path.outcome == "return":
             if case == "scalar":
                 yield "score_as_stored", path.value is self.s
-            else:
+            elif case == "vectorised":
                 yield "sum_of_lane_scores", same(path.value, Sym(mk_sum(self.n, lambda i: self.s.fn((i,)))))
+            else:
+                # Scan(Scan(.)), Vmap(Vmap(.)): the score is the sum over ALL lanes, a scalar
+                yield "sum_over_all_lanes_is_a_scalar", same(path.value, Sym(mk_sum(self.n, lambda i: mk_sum(self.m, lambda j: self.s.fn((i, j))))))
 
 
 @contract("genjax.core:get_choices", ["C01", "C03"])
@@ -917,3 +921,9 @@ class GetChoices(Contract):
         if path.outcome == "return":
             r = path.value
             yield "structure_and_values", isinstance(r, dict) and set(r) == {"a", "b"} and r["a"] is self.v1 and isinstance(r["b"], dict) and set(r["b"]) == {"c", "d"} and r["b"]["c"] is self.v3 and r["b"]["d"] is self.v2
+
+from vt.contract import canary as _canary  # noqa: E402
+
+_canary(DistUpdate, "constrained:args_only", "weight_is_density_ratio")
+_canary(GenerateStep, "args_only", "weight_step(missing_subcall_contributes_0)")
+_canary(RegenerateStep, "args_only", "callee_receives_remaining_selection")
